@@ -1,3 +1,19 @@
 import Bec2Verif.Props.C18
 open Bec2Verif.C18
-#print axioms placeholder
+#print axioms order_exact
+#print axioms signatures_verify
+#print axioms signatures_verify_partial
+#print axioms verifies_is_textbook
+#print axioms canonical_s_equivalent
+#print axioms out_of_range_rejected
+#print axioms out_of_range_is_bad_signature
+#print axioms malformed_is_bad_signature
+#print axioms string_signature_length
+#print axioms string_signature_roundtrip
+#print axioms string_signature_encodes
+#print axioms der_signature_roundtrip
+#print axioms canonical_s
+#print axioms rfc6979_nonce_in_range
+#print axioms ord23
+#print axioms trep23
+#print axioms ecdsa23_end_to_end
